@@ -118,7 +118,7 @@ def recipes_for(built, plan, si=0):
         yield f'{key}|io={io}', r + modes.io_rules(io)
 
 
-def graph_cases(spec, extra=None):
+def graph_cases(spec, extra=None, sigrev=False):
   """spec: list of (n_ops, type list, variants, exports-mode) -> case dicts."""
   for n, types, variants, exports in spec:
     alpha = eg.alphabet(types, variants)
@@ -127,3 +127,13 @@ def graph_cases(spec, extra=None):
       if extra:
         c.update(extra)
       yield c
+      if sigrev and (g['subgraphs'][0]['exports'] or any(
+          o['t'] in ('SPLIT', 'EMBEDDING_LOOKUP')
+          for o in g['subgraphs'][0]['ops'])):
+        # same graph, signature entries listed in the opposite order
+        for kw in ({'sigorder': 'rev'}, {'ioorder': 'rev'}):
+          g2 = {'subgraphs': [dict(g['subgraphs'][0], **kw)]}
+          c2 = {'ir': g2}
+          if extra:
+            c2.update(extra)
+          yield c2
